@@ -1,5 +1,6 @@
 """C18 - derive expansion is total: a result or a diagnostic, never an internal failure (DESIGN.md §3 C18)."""
 import json
+import re
 import subprocess
 
 from common import MachineryError, base_env, inproc_bin, svc
@@ -96,6 +97,14 @@ def part_a(chk, derives):
                 reqs.append({"derive": d["name"], "item": "#[%s] %s" % (a, s)})
                 reqs.append({"derive": d["name"], "item": "#[%s(forward)] %s" % (a, s)})
                 reqs.append({"derive": d["name"], "item": "#[%s(\"{}\")] %s" % (a, s)})
+        # parameter names decorated the way paths can be: generic arguments, leading `::`, further segments
+        for a in d["attrs"]:
+            for s in ("struct S(u8);", "struct S { a: u8, b: u16 }", "enum E { A(u8), B }"):
+                for arg in ("forward<>", "forward::<u8>", "ignore<u8>", "owned::<u8>", "ref<'a>", "not(forward<u8>)", "not(source<>)", "::ignore", "ignore::x", "skip<>", "repr<u8>", "bound<T>(T: Clone)",
+                            "owned<>(u8)", "types<>(u8)", "rename_all<> = \"x\"", "source<>", "backtrace::<>"):
+                    reqs.append({"derive": d["name"], "item": "#[%s(%s)] %s" % (a, arg, s)})
+                    if "(" in s:
+                        reqs.append({"derive": d["name"], "item": s.replace("(u8", "(#[%s(%s)] u8" % (a, arg), 1)})
     # the same items as a `macro_rules!` expansion hands them over: every field type inside a None-delimited group
     reqs += [dict(q, group=True) for q in reqs if "(" in q["item"] or "{" in q["item"]]
     # (not for the grouped variants: printing tokens as text drops None-delimited groups, which rustc itself keeps together)
@@ -257,6 +266,71 @@ def part_f(chk, thorough):
     chk.part("f_cross_property_corpus", inputs=len(uniq), sources=["C01 supported-shape space", "C17 documented spellings and corruptions", "C09 Error layouts with 0..3 fields"])
 
 
+INTERNAL_PANIC = re.compile(r"called `(?:Option|Result)::unwrap\(\)`|called `Option::expect|index out of bounds|out of range for slice|byte index|is not a char boundary|"
+                            r"internal error|entered unreachable code|not implemented|not yet implemented|attempt to (?:add|subtract|multiply|divide|negate)|"
+                            r"already (?:mutably )?borrowed|assertion (?:`?left|failed)|capacity overflow|explicit panic")
+
+
+def part_g(chk, thorough):
+    """Rejected inputs under the REAL compiler.  In-process the expanders run on proc_macro2's fallback implementation, where e.g.
+    `Span::join` always succeeds; under rustc (stable) it returns None.  Every input the expanders reject in-process - C17's
+    single-step corruptions and, per derive, the rejected (shape, attribute) pairs of part (a) - is compiled: it must fail with a
+    diagnostic, and a `proc-macro derive panicked` whose message is that of an unwrap / index / unreachable is an internal failure."""
+    import c17
+    from compile_engine import Case, CompileEngine
+    items = [(d, item) for d, cls, item, rustc in c17.corruptions()]
+    derives = sorted({d for d, _ in items})
+    shapes = [s for s in item_shapes() if not re.search(r"dyn_ty|impl_ty|\bTr\b|\bdyn\b|!|r#Self_", s)]
+    reqs = []
+    out = subprocess.run([inproc_bin(), "derives"], stdout=subprocess.PIPE, text=True, env=base_env(), check=True).stdout
+    for d in [json.loads(l) for l in out.splitlines() if l.strip()]:
+        for sh in shapes:
+            reqs.append({"derive": d["name"], "item": sh})
+            for a in d["attrs"]:
+                for arg in ("", "(forward)", "(\"{}\")", "(ignore)", "(ref, ref)", "(x = 1)"):
+                    reqs.append({"derive": d["name"], "item": "#[%s%s] %s" % (a, arg, sh)})
+                reqs.append({"derive": d["name"], "item": "#[%s] #[%s] %s" % (a, a, sh)})          # the same attribute twice: the duplicate path
+                reqs.append({"derive": d["name"], "item": "#[%s(ignore)] #[%s(ignore)] %s" % (a, a, sh)})
+    res = svc(reqs, timeout=300)
+    per = {}
+    for q, r in zip(reqs, res):
+        if r["k"] in ("err", "panic"):
+            key = (q["derive"], re.sub(r"\s+", " ", r.get("msg", ""))[:60])      # one representative per (derive, diagnostic text)
+            if key not in per or len(q["item"]) < len(per[key][1]):
+                per[key] = (q["derive"], q["item"])
+    items += sorted(per.values())
+    seen, uniq = set(), []
+    for it in items:
+        if it not in seen:
+            seen.add(it)
+            uniq.append(it)
+    cases = [Case("g%d" % k, "#[allow(unused_imports)] use super::*;\n#[derive(derive_more::%s)] %s" % (d, item), expect="fail", has_run=False, meta=dict(d=d, item=item))
+             for k, (d, item) in enumerate(uniq)]
+    eng = CompileEngine("C18G", mode="check", per_bin=max(8, len(cases) // 32 + 1))
+    results = eng.run_cases(cases)
+    for c in cases:
+        r = results[c.cid]
+        chk.count(states=1, transitions=1)
+        text = " ".join(d["message"] + " " + d["rendered"] for d in r.diags)
+        if "proc-macro derive panicked" in text or "proc macro panicked" in text:
+            m = re.search(r"message: (.*)", text)
+            msg = m.group(1) if m else ""
+            if INTERNAL_PANIC.search(text):
+                chk.outcome("g_rustc/panic-internal")
+                chk.violation("internal failure under rustc: " + shorten(re.sub(r"\d+", "N", msg)[:100]), "derive(%s) on: %s" % (c.meta["d"], c.meta["item"]), text[:900])
+            else:
+                chk.outcome("g_rustc/panic-with-a-message")
+        elif "internal compiler error" in text:
+            chk.outcome("g_rustc/ice")
+            chk.violation("internal compiler error on a derive input", "derive(%s) on: %s" % (c.meta["d"], c.meta["item"]), text[:900])
+        elif r.compile == "error":
+            chk.outcome("g_rustc/diagnostic")
+        else:
+            chk.outcome("g_rustc/accepted")     # rejected in-process, fine for rustc (cfg-dependent attribute handling): nothing to decide here
+    chk.part("g_rejected_inputs_under_rustc", inputs=len(cases), sources=["C17 single-step corruptions", "one representative per (derive, in-process diagnostic) over shapes x attribute forms, incl. repeated attributes"],
+             bins_built=eng.bins_built, build_s=round(eng.build_s, 1))
+
+
 def run(chk, tier):
     thorough = tier == "thorough"
     exe = inproc_bin()
@@ -267,6 +341,7 @@ def run(chk, tier):
     part_a(chk, derives)
     part_e(chk)
     part_f(chk, thorough)
+    part_g(chk, thorough)
     sweep(chk, "parser", ["--len", "5" if thorough else "4"], "b_parser_direct")
     sweep(chk, "lit", ["--len", "4" if thorough else "3"], "b_literals_in_attributes")
     if thorough:
